@@ -274,6 +274,18 @@ impl Run {
         T: Debug + Serialize + Clone + Send,
         F: Fn(&T) -> Verdict + Sync,
     {
+        self.prop_opts(name, make_strategy, cases, true, oracle)
+    }
+
+    /// `shrink = false` is for oracles whose outcome depends on an unpinned OS schedule: the first failing input is
+    /// kept as it is, with the signature it failed with (a shrunk input could pass on re-evaluation).
+    pub fn prop_opts<T, S, MK, F>(&mut self, name: &str, make_strategy: MK, cases: u32, shrink: bool, oracle: F)
+    where
+        S: Strategy<Value = T>,
+        MK: Fn() -> S + Sync,
+        T: Debug + Serialize + Clone + Send,
+        F: Fn(&T) -> Verdict + Sync,
+    {
         let t0 = Instant::now();
         let shards: u32 = if cases >= 64 { SHARDS } else { 1 };
         let before_nt = self.stats.nontrivial.len();
@@ -290,7 +302,7 @@ impl Run {
                     let n = cases / shards + if i < cases % shards { 1 } else { 0 };
                     std::thread::Builder::new()
                         .stack_size(32 << 20)
-                        .spawn_scoped(sc, move || run_shard(make_strategy(), seed, n, oracle, known))
+                        .spawn_scoped(sc, move || run_shard(make_strategy(), seed, n, oracle, known, shrink))
                         .expect("spawn shard thread")
                 })
                 .collect();
@@ -329,8 +341,9 @@ impl Run {
         let before_nt = self.stats.nontrivial.len();
         let before_ev = self.stats.evaluations;
         let mut complete = true;
+        let infra: RefCell<Option<String>> = RefCell::new(None);
         for v in items {
-            let verdict = match guarded(|| oracle(&v)) {
+            let verdict = match evaluate(&oracle, &v, &infra) {
                 Verdict::Known { signature, detail, info } => {
                     if self.is_known(&signature) {
                         self.record_known(&signature, &|| format!("{:?}", v));
@@ -357,6 +370,10 @@ impl Run {
                     }
                 }
             }
+        }
+        if let Some(i) = infra.into_inner() {
+            self.inconclusive.push(format!("campaign {name}: {i}"));
+            complete = false;
         }
         if complete {
             self.exhaustive_parts.push(name.to_string());
@@ -390,7 +407,10 @@ impl Run {
                 true
             }
             Verdict::Fail { signature, detail } => {
-                if self.is_known(&signature) {
+                if signature.starts_with("harness:") {
+                    self.inconclusive.push(format!("campaign {campaign}: {signature}: {detail}"));
+                    true
+                } else if self.is_known(&signature) {
                     self.record_known(&signature, &|| format!("{:?}", input));
                     true
                 } else {
@@ -492,6 +512,7 @@ fn run_shard<T, S, F>(
     cases: u32,
     oracle: &F,
     known: &[String],
+    shrink: bool,
 ) -> (Stats, Option<(T, String, String)>, Option<String>)
 where
     S: Strategy<Value = T>,
@@ -501,7 +522,7 @@ where
     let config = Config {
         cases,
         failure_persistence: None,
-        max_shrink_iters: 4000,
+        max_shrink_iters: if shrink { 4000 } else { 0 },
         max_shrink_time: 60_000,
         max_global_rejects: 1_000_000,
         max_local_rejects: 1_000_000,
@@ -515,7 +536,9 @@ where
     if cases == 0 {
         return (stats.into_inner(), None, None);
     }
-    let result = runner.run(&strategy, |v| match guarded(|| oracle(&v)) {
+    let infra: RefCell<Option<String>> = RefCell::new(None);
+    let first_failure: RefCell<Option<(String, String)>> = RefCell::new(None);
+    let result = runner.run(&strategy, |v| match evaluate(oracle, &v, &infra) {
         Verdict::Pass(info) => {
             if !*failed.borrow() {
                 stats.borrow_mut().record_pass(info, &|| format!("{:?}", v));
@@ -530,6 +553,7 @@ where
                 Ok(())
             } else {
                 *failed.borrow_mut() = true;
+                first_failure.borrow_mut().get_or_insert((signature.clone(), detail.clone()));
                 Err(TestCaseError::fail(format!("{signature}: {detail}")))
             }
         }
@@ -550,9 +574,13 @@ where
     });
     let stats = stats.into_inner();
     match result {
-        Ok(()) => (stats, None, None),
+        Ok(()) => (stats, None, infra.into_inner()),
+        Err(TestError::Fail(_reason, value)) if !shrink && first_failure.borrow().is_some() => {
+            let (signature, detail) = first_failure.into_inner().unwrap();
+            (stats, Some((value, signature, detail)), None)
+        }
         Err(TestError::Fail(_reason, value)) => {
-            let (signature, detail) = match guarded(|| oracle(&value)) {
+            let (signature, detail) = match evaluate(oracle, &value, &infra) {
                 Verdict::Fail { signature, detail } | Verdict::Known { signature, detail, .. } => (signature, detail),
                 Verdict::Pass(_) => ("flaky".to_string(), "minimal input passes on re-evaluation".to_string()),
             };
@@ -560,6 +588,31 @@ where
         }
         Err(TestError::Abort(reason)) => (stats, None, Some(reason.to_string())),
     }
+}
+
+/// One evaluation of the oracle with the two infrastructure rules applied:
+/// * a `harness:*` signature (the test-bed itself could not be set up, or an unpinned parallel run hit its
+///   real-time cap) is never a violation: the case is skipped and the run ends inconclusive (exit 2);
+/// * a `*-hangs` signature (real-time watchdog on a deterministic, virtual-time case) counts only when the
+///   same input hangs again on an immediate second evaluation.
+pub fn evaluate<T, F: Fn(&T) -> Verdict>(oracle: &F, v: &T, infra: &RefCell<Option<String>>) -> Verdict {
+    let mut verdict = guarded(|| oracle(v));
+    if let Verdict::Fail { signature, .. } = &verdict {
+        if signature.ends_with("-hangs") {
+            let first = signature.clone();
+            verdict = guarded(|| oracle(v));
+            if matches!(verdict, Verdict::Pass(_)) {
+                infra.borrow_mut().get_or_insert(format!("{first}: watchdog fired once, not on re-evaluation"));
+            }
+        }
+    }
+    if let Verdict::Fail { signature, detail } = &verdict {
+        if signature.starts_with("harness:") {
+            infra.borrow_mut().get_or_insert(format!("{signature}: {detail}"));
+            return Verdict::Pass(CaseInfo::trivial());
+        }
+    }
+    verdict
 }
 
 pub fn truncate(s: &str, n: usize) -> String {
